@@ -95,7 +95,12 @@ class Transformer(BaseEstimator, TransformerMixin, ABC):
             # Convert DataArray to Dataset
             coords = {}
             data_vars = {}
-            if data.name in data.coords:
+            is_coord = data.name in data.coords and data.identical(data.coords[data.name])
+            if not is_coord and data.name in data.coords:
+                # Data that merely shares its name with one of its coordinates (e.g. weights
+                # derived from the latitude coordinate) is stored under the attribute's key
+                data = data.rename(key)
+            if is_coord:
                 # Convert a coord-like DataArray to Dataset and note multiindexes
                 if isinstance(data.to_index(), pd.MultiIndex):
                     multiindexes[data.name] = [n for n in data.to_index().names]
